@@ -715,9 +715,12 @@ pub struct Two {
 }
 
 pub async fn two_nodes() -> Two {
+    two_nodes_named("a", "b").await
+}
+pub async fn two_nodes_named(na: &'static str, nb: &'static str) -> Two {
     let events: L = Arc::new(Mutex::new(vec![]));
-    let a = start_node("a", COOKIE, &events).await;
-    let b = start_node("b", COOKIE, &events).await;
+    let a = start_node(na, COOKIE, &events).await;
+    let b = start_node(nb, COOKIE, &events).await;
     vsched::quiesce();
     Two { a, b, events }
 }
@@ -745,8 +748,13 @@ pub enum Dials {
 }
 
 fn c18_body(d: Dials) -> vsched::Body {
+    c18_body_named(d, "a", "b")
+}
+
+/// the same with chosen node names (the election compares names: upper / lower case, prefixes, ...)
+fn c18_body_named(d: Dials, na: &'static str, nb: &'static str) -> vsched::Body {
     with_rt(move || async move {
-        let t = two_nodes().await;
+        let t = two_nodes_named(na, nb).await;
         let mut bad = Vec::new();
         let mut squatter = None;
         if matches!(d, Dials::SquatterDialOut | Dials::SquatterDialIn | Dials::SquatterLegacyDialOut | Dials::SquatterLegacyDialIn) {
@@ -755,7 +763,7 @@ fn c18_body(d: Dials) -> vsched::Body {
             let mut peer = ScriptedPeer::new(mine.stream);
             let connection_id = if matches!(d, Dials::SquatterLegacyDialOut | Dials::SquatterLegacyDialIn) { 0 } else { 1 };
             let _ = peer
-                .send(&auth_msg(pa::authentication_message::Msg::Name(pa::NameMessage { name: "b@host".into(), flags: Some(pa::NodeFlags { version: 1 }), connection_string: "elsewhere:9".into(), connection_id })))
+                .send(&auth_msg(pa::authentication_message::Msg::Name(pa::NameMessage { name: format!("{nb}@host"), flags: Some(pa::NodeFlags { version: 1 }), connection_string: "elsewhere:9".into(), connection_id })))
                 .await;
             vsched::quiesce_time();
             squatter = Some(peer);
@@ -825,11 +833,11 @@ fn c18_body(d: Dials) -> vsched::Body {
             }
             live
         };
-        for n in ["a", "b"] {
+        for n in [na, nb] {
             let live = live_ready(n);
             if live.len() != 1 {
                 bad.push(format!("node {n} is left with {} ready sessions for its peer ({live:?}): {ev:?}", live.len()));
-            } else if let Some(s) = (if n == "a" { &sa } else { &sb }).first() {
+            } else if let Some(s) = (if n == na { &sa } else { &sb }).first() {
                 if s.0 != live[0] {
                     bad.push(format!("node {n} lists the session over {} but reported {} as the ready one", s.0, live[0]));
                 }
@@ -873,7 +881,7 @@ fn c18_body(d: Dials) -> vsched::Body {
             let mut peer = ScriptedPeer::new(mine.stream);
             vsched::explore_schedules(true);
             let _ = peer
-                .send(&auth_msg(pa::authentication_message::Msg::Name(pa::NameMessage { name: "b@host".into(), flags: Some(pa::NodeFlags { version: 1 }), connection_string: "elsewhere:9".into(), connection_id: 1 })))
+                .send(&auth_msg(pa::authentication_message::Msg::Name(pa::NameMessage { name: format!("{nb}@host"), flags: Some(pa::NodeFlags { version: 1 }), connection_string: "elsewhere:9".into(), connection_id: 1 })))
                 .await;
             vsched::quiesce_time();
             vsched::explore_schedules(false);
@@ -885,7 +893,7 @@ fn c18_body(d: Dials) -> vsched::Body {
                 bad.push("the ready session was stopped by an unauthenticated connection claiming its name".into());
             }
             let ev2 = t.events.lock().unwrap().clone();
-            if ev2.iter().filter(|e| e.starts_with("a:ready")).count() != ev.iter().filter(|e| e.starts_with("a:ready")).count() || ev2.iter().any(|e| e.contains("authenticated pipe-spoof")) {
+            if ev2.iter().filter(|e| e.starts_with(&format!("{na}:ready"))).count() != ev.iter().filter(|e| e.starts_with(&format!("{na}:ready"))).count() || ev2.iter().any(|e| e.contains("authenticated pipe-spoof")) {
                 bad.push(format!("node events after the spoof attempt: {ev2:?}"));
             }
             spoof_note = format!(" spoof-listed={}", after.len());
@@ -1174,6 +1182,16 @@ pub fn c18_units(thorough: bool) -> Vec<Unit> {
             v.push(Unit::explore_split(Job::new(format!("two-nodes/{d:?}/seed{seed}"), c, Some(if thorough { 2 } else { 1 }), c18_body(d)), 16));
         }
     }
+    // other pairs of names: the election orders the two names, so pairs whose order depends on how names are
+    // compared (upper vs lower case, one a prefix of the other, digits) get the simultaneous and mixed dials too
+    for (na, nb) in [("B", "a"), ("a", "B"), ("node", "node2"), ("Z9", "z10")] {
+        for d in [Dials::Simultaneous, Dials::ThreeMixed, Dials::TwiceSameDirection] {
+            if !thorough && d == Dials::TwiceSameDirection {
+                continue;
+            }
+            v.push(Unit::explore_split(Job::new(format!("two-nodes-named/{na}+{nb}/{d:?}"), cfg.clone(), Some(if thorough { 2 } else { 1 }), c18_body_named(d, na, nb)), 8));
+        }
+    }
     // the peer played by the harness: repeated / legacy connection ids; the tables are hash maps, so several
     // hash seeds are run
     for kind in [
@@ -1343,6 +1361,26 @@ fn c20_body(read_limit: usize, ending: Ending, abandon: bool) -> vsched::Body {
             }
             if a1 != Some(1150) || a2 != Some(1151) {
                 bad.push(format!("the pipelined requests were answered {a1:?} and {a2:?}, expected 1150 and 1151"));
+            }
+        }
+        // a large message followed at once by small ones from the same sender (the link's writer batches what is
+        // queued): all arrive, in order, whole
+        {
+            vsched::explore_schedules(true);
+            let before = plog.lock().unwrap().len();
+            let big = "x".repeat(80 * 1024);
+            let ok = [
+                proxy_ref.cast(Wire::Note(60, "small".into())).is_ok(),
+                proxy_ref.cast(Wire::Note(61, big.clone())).is_ok(),
+                proxy_ref.cast(Wire::Note(62, "small".into())).is_ok(),
+                proxy_ref.cast(Wire::Note(63, "small".into())).is_ok(),
+            ];
+            vsched::quiesce_time();
+            vsched::explore_schedules(false);
+            let l: Vec<String> = plog.lock().unwrap()[before..].iter().map(|e| if e.len() > 60 { format!("{}..({} bytes)", &e[..12], e.len()) } else { e.clone() }).collect();
+            let want = vec!["P:note 60 small".to_string(), format!("P:note 61 xx..({} bytes)", "P:note 61 ".len() + big.len()), "P:note 62 small".into(), "P:note 63 small".into()];
+            if l != want {
+                bad.push(format!("one sender cast small, 80 KiB, small, small on one remote reference (accepted: {ok:?}); the real actor handled {l:?}, expected {want:?}"));
             }
         }
         // every remote reference of P answers (both nodes live in this process, each session owns one; pg
@@ -1557,6 +1595,87 @@ fn c19_truncation_body() -> vsched::Body {
     })
 }
 
+/// C19 / C20: messages that carry metadata next to their arguments (a factory Job: key and options travel as
+/// metadata) cross a real link as casts and as calls, with and without a reply timeout, and arrive with the
+/// same key, variant and arguments
+struct JobResponder {
+    log: L,
+}
+type JMsg = ractor::factory::Job<u64, Wire>;
+impl Actor for JobResponder {
+    type Msg = JMsg;
+    type State = ();
+    type Arguments = ();
+    async fn pre_start(&self, _m: ActorRef<JMsg>, _: ()) -> Result<(), ActorProcessingErr> {
+        Ok(())
+    }
+    async fn handle(&self, _m: ActorRef<JMsg>, j: JMsg, _: &mut ()) -> Result<(), ActorProcessingErr> {
+        match j.msg {
+            Wire::Note(n, s) => self.log.lock().unwrap().push(format!("J:note key={} {n} {s}", j.key)),
+            Wire::Ask(n, reply) => {
+                self.log.lock().unwrap().push(format!("J:ask key={} {n}", j.key));
+                let _ = reply.send(j.key as u32 * 1000 + n);
+            }
+        }
+        Ok(())
+    }
+}
+
+fn c19_metadata_body(read_limit: usize) -> vsched::Body {
+    with_rt(move || async move {
+        let t = two_nodes().await;
+        let jlog: L = Arc::new(Mutex::new(vec![]));
+        let (j, jh) = Actor::spawn(None, JobResponder { log: jlog.clone() }, ()).await.expect("J");
+        ractor::pg::join("jobs".into(), vec![j.get_cell()]);
+        dial(&t.a, &t.b, "pipe-ab", read_limit);
+        vsched::quiesce_time();
+        let mut bad = Vec::new();
+        let Some(proxy) = remote_ref_of(j.get_id(), "jobs") else {
+            bad.push("no remote reference for the job responder".to_string());
+            for n in [t.a, t.b] {
+                n.server.stop(None);
+                let _ = n.handle.await;
+            }
+            j.stop(None);
+            let _ = jh.await;
+            return Outcome { key: "no-proxy".into(), violations: bad };
+        };
+        let r: ActorRef<JMsg> = proxy.into();
+        vsched::explore_schedules(true);
+        let c1 = r.cast(ractor::factory::Job::new(7, Wire::Note(5, "m".into()))).is_ok();
+        let a1 = r.call(|reply| ractor::factory::Job::new(41, Wire::Ask(1, reply)), None).await;
+        let a2 = r.call(|reply| ractor::factory::Job::new(42, Wire::Ask(2, reply)), Some(Duration::from_millis(200))).await;
+        vsched::quiesce_time();
+        vsched::explore_schedules(false);
+        let show = |x: &Result<ractor::rpc::CallResult<u32>, ractor::MessagingErr<JMsg>>| match x {
+            Ok(c) => format!("{c:?}"),
+            Err(_) => "send error".to_string(),
+        };
+        if !c1 {
+            bad.push("the cast of a job through the remote reference was refused".to_string());
+        }
+        if !matches!(a1, Ok(ractor::rpc::CallResult::Success(41001))) {
+            bad.push(format!("a call carrying metadata (job key 41), no timeout, ended as {}, expected Success(41001)", show(&a1)));
+        }
+        if !matches!(a2, Ok(ractor::rpc::CallResult::Success(42002))) {
+            bad.push(format!("a call carrying metadata (job key 42) with a reply timeout ended as {}, expected Success(42002)", show(&a2)));
+        }
+        let l = jlog.lock().unwrap().clone();
+        let want = vec!["J:note key=7 5 m".to_string(), "J:ask key=41 1".into(), "J:ask key=42 2".into()];
+        if l != want {
+            bad.push(format!("the real actor handled {l:?}, expected {want:?}"));
+        }
+        let key = format!("{l:?}");
+        for n in [t.a, t.b] {
+            n.server.stop(None);
+            let _ = n.handle.await;
+        }
+        j.stop(None);
+        let _ = jh.await;
+        Outcome { key, violations: bad }
+    })
+}
+
 pub fn c19_limit_units(thorough: bool) -> Vec<Unit> {
     let cfg = cluster_cfg();
     let mut v = Vec::new();
@@ -1571,6 +1690,9 @@ pub fn c19_limit_units(thorough: bool) -> Vec<Unit> {
                 v.push(Unit::explore(Job::new(format!("node-limit/{}/stage{stage}/declared{d}", if is_server { "accepting" } else { "dialling" }), cfg.clone(), Some(if thorough { 2 } else { 1 }), c19_limit_body(is_server, stage, *d, limit))));
             }
         }
+    }
+    for rl in [0usize, 7] {
+        v.push(Unit::explore(Job::new(format!("node-metadata/job-cast-and-calls/read{rl}"), cfg.clone(), Some(if thorough { 1 } else { 0 }), c19_metadata_body(rl))));
     }
     // connection lost at every byte offset of a frame (free choice), after an honest handshake
     v.push(Unit::explore_split(Job::new("node-truncation/cast-frame-cut-at-every-offset", cfg.clone(), Some(if thorough { 1 } else { 0 }), c19_truncation_body()), 8));
